@@ -440,7 +440,7 @@ AVOID_BRANCHES = (
 class C11(PropCheck):
     id = 'C11'
     extractors = (float_tests.generate,)
-    modules = ('WpModel.Props.C11', 'WpModel.Props.C11Flow', 'WpModel.Props.C11Inline', 'WpModel.Props.C11Events', 'WpModel.Witness.C11')
+    modules = ('WpModel.Props.C11', 'WpModel.Props.C11Flow', 'WpModel.Props.C11Inline', 'WpModel.Props.C11Events', 'WpModel.Props.C11AbsDoc', 'WpModel.Witness.C11')
     trusted_base = (
         'modelled, not verified: layout/float.py avoid_collisions / find_float_position / get_clearance / float_width, '
         'layout/absolute.py absolute_width / absolute_height / absolute_replaced / absolute_block translation, '
@@ -939,13 +939,16 @@ MANIFEST = {
             'content on its own page when that ends above the page bottom; the containing block of the absolute children of '
             'an absolutely positioned box is its final padding box; the absolute constraint equations (CSS 2.1 10.3.7 / 10.6.4 / 10.3.8 / '
             '10.6.5) for every auto pattern in ltr and rtl without exception, static positions, centring, shrink-to-fit, '
-            'min/max re-entry; absolute_replaced total with exact halves; relative positioning is a translation by the '
+            'min/max re-entry, and the same equations for the document-level function absolute_box_layout + absolute_block '
+            '(percentages, paddings, borders, min/max-width); absolute_replaced total with exact halves; relative positioning is a translation by the '
             'CSS 2.1 offset and the identity elsewhere.',
     'note': 'Trusted: Lean kernel, the hand transcription of the Python functions (tied only by the correspondence), the '
             'AST translator of the three float tests, mock boxes. Partial: the content of a line (Pango) is a parameter of '
             'the model (one word or one inline-block per line); multi-word lines are covered by the trace checker only. '
             'Float fragmentation across pages belongs to C01. Theorems with explicit hypotheses (witnesses in '
-            'Witness/C11.lean, four known findings): cb_height_of_relative_box_partial (abs-cb-height-before-min-max: a '
+            'Witness/C11.lean, five known findings): abs_block_equation_v_partial (abs-height-min-max-not-resolved: a specified '
+            'or solved height clamped by min/max-height after absolute_height, nothing re-solved; the horizontal equation '
+            'abs_block_equation_h is full, min/max-width included), cb_height_of_relative_box_partial (abs-cb-height-before-min-max: a '
             'relative block lays its absolute children out before min/max-height; modelled, generated and compared), '
             'fixed_same_content_partial (fixed-box-fragmented-on-own-page: content cut at the page bottom on the page of '
             'origin only; modelled by fixedKept and compared in section fixed-fragments), fixed_on_every_page excludes fixed '
